@@ -140,7 +140,11 @@ func execRdInner(o hx.Op, in []byte) string {
 	case "any":
 		out := cryptobyte.String(garbBytes())
 		t := asn1.Tag(0xee)
-		ok := s.ReadAnyASN1(&out, &t)
+		tp := &t
+		if o.Str("nt") == "1" {
+			tp = nil // outTag may be nil
+		}
+		ok := s.ReadAnyASN1(&out, tp)
 		var rv encasn1.RawValue
 		aOK, aRest := asn1Try(in, &rv, "")
 		same := false
@@ -151,12 +155,36 @@ func execRdInner(o hx.Op, in []byte) string {
 			}
 			same = rv.Tag < 31 && tagByte == byte(t) && bytes.Equal(rv.Bytes, out) && bytes.Equal(aRest, s)
 		}
-		return fin(ok, fmt.Sprintf("tag=%02x out=%s", byte(t), showB(out))+rest(), tail("H", ok, aOK, same))
+		ts := fmt.Sprintf("%02x", byte(t))
+		if tp == nil {
+			ts = "na"
+			same = ok && aOK && bytes.Equal(rv.Bytes, out) && bytes.Equal(aRest, s)
+		}
+		return fin(ok, "tag="+ts+" out="+showB(out)+rest(), tail("H", ok, aOK, same))
 	case "anyel":
 		out := cryptobyte.String(garbBytes())
 		t := asn1.Tag(0xee)
-		ok := s.ReadAnyASN1Element(&out, &t)
-		return fin(ok, fmt.Sprintf("tag=%02x out=%s", byte(t), showB(out))+rest(), none)
+		ts := func() string { return fmt.Sprintf("%02x", byte(t)) }
+		var ok bool
+		if o.Str("nt") == "1" {
+			ok = s.ReadAnyASN1Element(&out, nil)
+			ts = func() string { return "na" }
+		} else {
+			ok = s.ReadAnyASN1Element(&out, &t)
+		}
+		return fin(ok, "tag="+ts()+" out="+showB(out)+rest(), none)
+	case "intbad":
+		var bad string
+		s.ReadASN1Integer(&bad) // panics: not an integer destination
+		return "no-panic"
+	case "optbad":
+		var bad string
+		ok := s.ReadOptionalASN1Integer(&bad, tagOf(o), 0)
+		return fin(ok, "no-panic", none)
+	case "optbigbad":
+		v := new(big.Int).SetInt64(-77)
+		ok := s.ReadOptionalASN1Integer(v, tagOf(o), 5) // default is not a *big.Int: panics when it is needed
+		return fin(ok, "v="+v.String()+rest(), none)
 	case "asn1":
 		out := cryptobyte.String(garbBytes())
 		ok := s.ReadASN1(&out, tagOf(o))
@@ -173,11 +201,22 @@ func execRdInner(o hx.Op, in []byte) string {
 	case "opt":
 		out := cryptobyte.String(garbBytes())
 		present := garb&2 == 0
-		ok := s.ReadOptionalASN1(&out, &present, tagOf(o))
-		if !present {
-			out = nil
+		ps := func() string { return b01(present) }
+		var ok bool
+		if o.Str("np") == "1" { // outPresent may be nil
+			before := len(s)
+			ok = s.ReadOptionalASN1(&out, nil, tagOf(o))
+			if len(s) == before {
+				out = nil
+			}
+			ps = func() string { return "na" }
+		} else {
+			ok = s.ReadOptionalASN1(&out, &present, tagOf(o))
+			if !present {
+				out = nil
+			}
 		}
-		return fin(ok, "present="+b01(present)+" out="+showB(out)+rest(), none)
+		return fin(ok, "present="+ps()+" out="+showB(out)+rest(), none)
 	case "skipopt":
 		ok := s.SkipOptionalASN1(tagOf(o))
 		return fin(ok, strings.TrimPrefix(rest(), " "), none)
@@ -259,6 +298,10 @@ func execRdInner(o hx.Op, in []byte) string {
 	case "optoctet":
 		out := garbBytes()
 		present := garb&2 == 0
+		if o.Str("np") == "1" {
+			ok := s.ReadOptionalASN1OctetString(&out, nil, tagOf(o))
+			return fin(ok, "present=na out="+showB(out)+rest(), none)
+		}
 		ok := s.ReadOptionalASN1OctetString(&out, &present, tagOf(o))
 		return fin(ok, "present="+b01(present)+" out="+showB(out)+rest(), none)
 	case "int8":
@@ -557,9 +600,34 @@ func execTimeAdd(o hx.Op) string {
 	return "bad-op"
 }
 
+var tagConsts = map[string]asn1.Tag{
+	"BOOLEAN": asn1.BOOLEAN, "INTEGER": asn1.INTEGER, "BIT_STRING": asn1.BIT_STRING, "OCTET_STRING": asn1.OCTET_STRING,
+	"NULL": asn1.NULL, "OBJECT_IDENTIFIER": asn1.OBJECT_IDENTIFIER, "ENUM": asn1.ENUM, "UTF8String": asn1.UTF8String,
+	"SEQUENCE": asn1.SEQUENCE, "SET": asn1.SET, "PrintableString": asn1.PrintableString, "T61String": asn1.T61String,
+	"IA5String": asn1.IA5String, "UTCTime": asn1.UTCTime, "GeneralizedTime": asn1.GeneralizedTime, "GeneralString": asn1.GeneralString,
+}
+
+func execTag(o hx.Op) string {
+	switch o.Str("f") {
+	case "const":
+		t, ok := tagConsts[o.Str("name")]
+		if !ok {
+			return "bad-op"
+		}
+		return fmt.Sprintf("ok %02x", byte(t))
+	case "constructed":
+		return fmt.Sprintf("ok %02x", byte(tagOf(o).Constructed()))
+	case "contextspecific":
+		return fmt.Sprintf("ok %02x", byte(tagOf(o).ContextSpecific()))
+	}
+	return "bad-op"
+}
+
 func exec(line string) string {
 	o := hx.Parse(line)
 	switch o.Cmd {
+	case "tag":
+		return execTag(o)
 	case "rd":
 		return execRd(o)
 	case "add":
@@ -651,13 +719,13 @@ func mutateHeader(r *hx.Rand, g *hx.Gen, tag byte, body []byte) []byte {
 	var l []byte
 	switch r.Intn(9) {
 	case 0: // long form for a short length
-		g.Stat("hdr.long-for-short")
+		lab(g, "hdr.long-for-short")
 		l = []byte{0x81, byte(n)}
 		if n > 255 {
 			l = derLen(n)
 		}
 	case 1: // leading zero length octet
-		g.Stat("hdr.leading-zero")
+		lab(g, "hdr.leading-zero")
 		d := derLen(n)
 		if d[0]&0x80 == 0 {
 			l = []byte{0x82, 0, d[0]}
@@ -670,24 +738,24 @@ func mutateHeader(r *hx.Rand, g *hx.Gen, tag byte, body []byte) []byte {
 			}
 		}
 	case 2: // indefinite
-		g.Stat("hdr.indefinite")
+		lab(g, "hdr.indefinite")
 		l = []byte{0x80}
 	case 3: // five length octets
-		g.Stat("hdr.lenlen5")
+		lab(g, "hdr.lenlen5")
 		l = []byte{0x85, 0, 0, 0, 0, byte(n)}
 	case 4: // length one too long / short
-		g.Stat("hdr.len-off")
+		lab(g, "hdr.len-off")
 		m := n + r.PickInt(-1, 1, 2)
 		if m < 0 {
 			m = 1
 		}
 		l = derLen(m)
 	case 5: // high tag number form
-		g.Stat("hdr.high-tag")
+		lab(g, "hdr.high-tag")
 		tag = tag&0xe0 | 0x1f
 		l = derLen(n)
 	case 6: // four-octet length, maybe huge
-		g.Stat("hdr.len4")
+		lab(g, "hdr.len4")
 		l = []byte{0x84, byte(r.PickInt(0, 1, 0x7f, 0x80, 0xff)), byte(r.Intn(256)), byte(n >> 8), byte(n)}
 		if r.Bool() {
 			l = []byte{0x84, 0xff, 0xff, 0xff, byte(r.PickInt(0xf8, 0xf9, 0xfa, 0xff))}
@@ -698,8 +766,34 @@ func mutateHeader(r *hx.Rand, g *hx.Gen, tag byte, body []byte) []byte {
 	return append(append([]byte{tag}, l...), body...)
 }
 
+// labels of the mutation classes applied to the case being generated (for the pair.<reader>+<class> counters)
+var cur []string
+var destSeen = map[string]bool{}
+var lenSeen = map[int]bool{4: true} // 0x84 with a valid 16 MiB body is the corpus case
+
+func lab(g *hx.Gen, s string) {
+	g.Stat(s)
+	cur = append(cur, s)
+}
+
 func emitRd(g *hx.Gen, f string, extra string, in []byte) {
 	g.Stat("rd." + f)
+	if len(cur) == 0 {
+		cur = []string{"plain"}
+	}
+	for _, l := range cur {
+		g.Stat("pair." + f + "+" + l)
+	}
+	cur = nil
+	destSeen[f] = true
+	if len(in) >= 2 {
+		switch {
+		case in[1] < 0x80:
+			lenSeen[0] = true
+		case in[1] >= 0x81 && in[1] <= 0x84:
+			lenSeen[int(in[1]&0x7f)] = true
+		}
+	}
 	// long runs of one byte at the end are compressed into pad=
 	pad := ""
 	if len(in) > 300 {
@@ -718,9 +812,11 @@ func emitRd(g *hx.Gen, f string, extra string, in []byte) {
 func trailing(r *hx.Rand, in []byte) []byte {
 	switch r.Intn(6) {
 	case 0:
+		cur = append(cur, "trailing")
 		return append(in, r.Bytes(r.Range(1, 4))...)
 	case 1:
 		if len(in) > 0 {
+			cur = append(cur, "truncated")
 			return in[:r.Intn(len(in))]
 		}
 	}
@@ -743,23 +839,23 @@ func genInt(g *hx.Gen) {
 			if f[0] == 'u' && r.Chance(1, 4) {
 				v = big.NewInt(int64(r.Range(-2, 1)))
 			}
-			g.Stat("int.type-edge")
+			lab(g, "int.type-edge")
 		}
 	}
 	body := intBody(v)
 	switch r.Intn(10) {
 	case 0:
-		g.Stat("int.nonminimal")
+		lab(g, "int.nonminimal")
 		if v.Sign() < 0 {
 			body = append([]byte{0xff}, body...)
 		} else {
 			body = append([]byte{0}, body...)
 		}
 	case 1:
-		g.Stat("int.empty")
+		lab(g, "int.empty")
 		body = nil
 	case 2:
-		g.Stat("int.random-body")
+		lab(g, "int.random-body")
 		body = r.Bytes(r.Range(1, 10))
 		if r.Bool() {
 			body[0] = byte(r.PickInt(0, 0xff))
@@ -796,16 +892,22 @@ func genInt(g *hx.Gen) {
 		}
 		switch r.Intn(6) {
 		case 0: // absent
-			g.Stat("opt.absent")
+			lab(g, "opt.absent")
 		case 1: // trailing data inside the wrapper
-			g.Stat("opt.inner-trailing")
+			lab(g, "opt.inner-trailing")
 			in = tlv(wt, append(in, r.Bytes(r.Range(1, 3))...))
 		case 2:
-			g.Stat("opt.other-wrapper")
+			lab(g, "opt.other-wrapper")
 			in = tlv(wt^1, in)
 		default:
 			in = tlv(wt, in)
 		}
+	}
+	if strings.HasPrefix(f, "opt") && r.Chance(1, 10) {
+		f = r.PickStr("optbad", "optbigbad")
+		extra = extra[:7] // keep " tag=xx"
+	} else if f == "int64" && r.Chance(1, 15) {
+		f = "intbad"
 	}
 	emitRd(g, f, extra, trailing(r, in))
 }
@@ -831,10 +933,10 @@ func genOID(g *hx.Gen) {
 		arc := base128(v)
 		switch r.Intn(16) {
 		case 0:
-			g.Stat("oid.0x80-led")
+			lab(g, "oid.0x80-led")
 			arc = append([]byte{0x80}, arc...)
 		case 1:
-			g.Stat("oid.truncated-arc")
+			lab(g, "oid.truncated-arc")
 			arc[len(arc)-1] |= 0x80
 		}
 		body = append(body, arc...)
@@ -859,7 +961,7 @@ func genMisc(g *hx.Gen) {
 			body = r.Bytes(r.PickInt(0, 2))
 		}
 		in := tlv(1, body)
-		if r.Chance(1, 6) {
+		if r.Chance(1, 3) {
 			in = mutateHeader(r, g, 1, body)
 		}
 		if r.Chance(1, 3) {
@@ -869,7 +971,7 @@ func genMisc(g *hx.Gen) {
 			case 0:
 				w = in
 			case 1:
-				g.Stat("optbool.inner-trailing")
+				lab(g, "optbool.inner-trailing")
 				w = tlv(wt, append(in, r.Bytes(r.Range(1, 3))...))
 			}
 			emitRd(g, "optbool", fmt.Sprintf(" tag=%02x def=%d", wt, r.Intn(2)), trailing(r, w))
@@ -886,7 +988,7 @@ func genMisc(g *hx.Gen) {
 		if n > 0 && !r.Chance(1, 4) {
 			data[n-1] &^= 1<<pad - 1 // clear the padding bits (valid)
 		} else if n > 0 {
-			g.Stat("bits.dirty-padding")
+			lab(g, "bits.dirty-padding")
 		}
 		if r.Chance(1, 3) {
 			pad = 0
@@ -913,10 +1015,15 @@ func genMisc(g *hx.Gen) {
 			case 0:
 				w = in
 			case 1:
-				g.Stat("optoctet.inner-trailing")
+				lab(g, "optoctet.inner-trailing")
 				w = tlv(wt, append(in, 0))
 			}
-			emitRd(g, "optoctet", fmt.Sprintf(" tag=%02x", wt), trailing(r, w))
+			np := ""
+			if r.Chance(1, 4) {
+				np = " np=1"
+				lab(g, "nil-present")
+			}
+			emitRd(g, "optoctet", fmt.Sprintf(" tag=%02x%s", wt, np), trailing(r, w))
 			return
 		}
 		emitRd(g, "octet", "", trailing(r, in))
@@ -952,6 +1059,14 @@ func genMisc(g *hx.Gen) {
 				t = byte(r.PickInt(0x30, 0x04, 0xa0, 0x1f))
 			}
 			extra = fmt.Sprintf(" tag=%02x", t)
+		}
+		if (f == "any" || f == "anyel") && r.Chance(1, 5) {
+			extra += " nt=1"
+			lab(g, "nil-outtag")
+		}
+		if f == "opt" && r.Chance(1, 4) {
+			extra += " np=1"
+			lab(g, "nil-present")
 		}
 		emitRd(g, f, extra, in)
 	}
@@ -1121,7 +1236,25 @@ func genTime(g *hx.Gen) {
 	g.Emit("time f=%s in=%s", f, hx.Hex(trailing(r, in)))
 }
 
+var tagNames = []string{"BOOLEAN", "INTEGER", "BIT_STRING", "OCTET_STRING", "NULL", "OBJECT_IDENTIFIER", "ENUM", "UTF8String",
+	"SEQUENCE", "SET", "PrintableString", "T61String", "IA5String", "UTCTime", "GeneralizedTime", "GeneralString"}
+
 func gen(g *hx.Gen) {
+	// cryptobyte/asn1: every constant, and the class helpers on every tag byte
+	for _, nm := range tagNames {
+		g.Emit("tag f=const name=%s", nm)
+	}
+	g.StatN("table.asn1-constants.hit", len(tagNames))
+	g.StatN("table.asn1-constants.total", len(tagNames))
+	for t := 0; t < 256; t++ {
+		g.Emit("tag f=constructed tag=%02x", t)
+		g.Emit("tag f=contextspecific tag=%02x", t)
+	}
+	g.Stat("tag.helpers")
+	// ReadASN1Integer's destination type switch: 10 integer kinds + *big.Int + *[]byte + default (panic)
+	g.StatN("table.readasn1integer-dest.total", 13)
+	// readASN1's length forms: short, 0x81, 0x82, 0x83 generated; 0x84 is the 16 MiB corpus case
+	g.StatN("table.readasn1-lenform.total", 5)
 	n := g.Count(30000, 400000)
 	for i := 0; i < n; i++ {
 		switch g.R.Intn(20) {
@@ -1139,6 +1272,14 @@ func gen(g *hx.Gen) {
 			genTime(g)
 		}
 	}
+	hit := 0
+	for _, k := range []string{"int8", "int16", "int32", "int64", "int", "uint8", "uint16", "uint32", "uint64", "uint", "bigint", "intbytes", "intbad"} {
+		if destSeen[k] {
+			hit++
+		}
+	}
+	g.StatN("table.readasn1integer-dest.hit", hit)
+	g.StatN("table.readasn1-lenform.hit", len(lenSeen))
 }
 
 func main() { hx.Main(hx.Harness{Gen: gen, Exec: exec}) }
